@@ -30,7 +30,8 @@ sticky flags `apu.crash`, `apu.ch3.crash` (wave-RAM index of a WRITE while the c
 `takeSample`); (2) the very first machine cycle after power-on: `oam.New` leaves `ppuLastAccess = 0`, outside
 FE00–FE9F, until the first `ppu.EndMachineCycle` – the invariant holds from the end of the first cycle on (see the
 example at the end; the first CPU cycle cannot touch OAM because of the power-on register values, which is not
-proved here).
+proved here).  BOTH gaps are closed in Proofs/WholeNoCrash.lean (`c11_whole_never_panics`: invariant `WholeOk` =
+this file's `BoardOk` – or its power-on variant for the first cycle – plus `CpuOk` and `ApuOk`).
 -/
 namespace Tetro.WholeSafe
 open Tetro.Model Tetro.Model.Render Tetro.Model.Whole Tetro.Model.Machine Tetro.LcdLemmas
